@@ -232,7 +232,12 @@ func init() {
 		},
 		"fmt.Errorf": func(fr *frame, a []value) value {
 			e := &opaqueErr{msg: a[0].(string)}
-			for _, x := range a[1].([]value) {
+			// only operands formatted with %w are wrapped (errors.Is / errors.Unwrap see them)
+			verbs := fmtVerbs(a[0].(string))
+			for i, x := range a[1].([]value) {
+				if i < len(verbs) && verbs[i] != 'w' {
+					continue
+				}
 				if it, ok := x.(iface); ok && it.t != nil && types.Implements(it.t, errorIface) {
 					e.wrapped = append(e.wrapped, it)
 				}
@@ -512,3 +517,21 @@ func (m *Machine) checkAssert(id string, c *Term) {
 }
 
 func trimPkg(s string) string { return s[strings.LastIndex(s, "/")+1:] }
+
+// fmtVerbs returns the verb letter of each formatting directive of a format string, in operand order.
+func fmtVerbs(format string) []byte {
+	var out []byte
+	for i := 0; i < len(format); i++ {
+		if format[i] != '%' {
+			continue
+		}
+		i++
+		for i < len(format) && strings.IndexByte("+-# 0123456789.[]*", format[i]) >= 0 {
+			i++
+		}
+		if i < len(format) && format[i] != '%' {
+			out = append(out, format[i])
+		}
+	}
+	return out
+}
